@@ -1307,15 +1307,18 @@ def c11(project, obs, view=None):
     if v.hang or obs.get("watchdog"):
         return [F("C11/hang", "the run hangs after the backend raised on event %d" % k, obs.get("dump"))]
     text = (obs.get("fault") or {}).get("text") or ""
+    # (a BaseException that is no Exception — GeneratorExit, SystemExit, KeyboardInterrupt raised inside a handler — gets
+    # its own signature suffix: finding D42; every other class keeps the plain signatures)
+    sfx = ("/not-an-Exception:" + cls) if cls in ("GeneratorExit", "SystemExit", "KeyboardInterrupt") else ""
     if "returned" in oc:
-        out.append(F("C11/fault-silently-ignored", "backend raised %s on event %d but run_suites returned %r" % (cls, k, oc["returned"])))
+        out.append(F("C11/fault-silently-ignored" + sfx, "backend raised %s on event %d but run_suites returned %r" % (cls, k, oc["returned"])))
     elif text.strip() and text.strip() not in oc.get("text", ""):
         # (the text is looked for without its leading / trailing blanks: KeyError and friends show their argument
         # repr()-escaped, so a line break at its edge reads "\\n" there — the words of the message are what must survive)
         out.append(F("C11/original-text-lost/" + cls, "caller saw %s(%r) without the original text %r" % (oc["raised"], oc["text"][:200], text)))
     pf = obs.get("pending_failure_at")
     if pf is None:
-        out.append(F("C11/fault-not-recorded", "the backend raised but no pending failure was recorded"))
+        out.append(F("C11/fault-not-recorded" + sfx, "the backend raised %s but no pending failure was recorded" % cls))
     else:
         for ti, g in enumerate(v.tasks):
             if g["kind"] != "test":
